@@ -363,8 +363,19 @@ func stepLoop(c *core.Ctx, fn *core.Fn, name string, as *ast.AssignStmt, b ast.E
 			und("unrecognised loop header around the step")
 			return
 		}
-		c.Check("R2.step", name+"/loop", l.Pos(), initOK && condOK && postOK,
-			"the step must be applied to every byte buf[0..len) once, in order (for i := 0; i < len(buf); i++): a skipped byte changes the CRC of every key containing it")
+		k0, isC0 := core.IntConst(info, l.Init.(*ast.AssignStmt).Rhs[0])
+		stride := int64(1)
+		if b := pat.Stmt("_i += _k").Match(info, l.Post, bd); b != nil {
+			stride, _ = core.IntConst(info, b["_k"].(ast.Expr))
+		}
+		switch {
+		case isC0 && k0 != 0 || stride > 1:
+			c.Check("R2.step", name+"/loop", l.Pos(), false, fmt.Sprintf("the step must be applied to every byte buf[0..len) once, in order (loop starts at %d, stride %d): a skipped byte changes the CRC of every key containing it", k0, stride))
+		case initOK && condOK && postOK:
+			c.Okf("R2.step", name+"/loop", l.Pos(), "the step is applied to every byte buf[0..len) once, in order")
+		default:
+			und("unrecognised loop header around the step")
+		}
 	case *ast.RangeStmt:
 		if !isParam(l.X) || l.Value == nil || objOf(info, b) == nil || objOf(info, b) != objOf(info, l.Value) {
 			und("byte operand %s is not the range value of the input", c.Src(b))
